@@ -586,6 +586,9 @@ def main(argv):
             bad = [o for o, x in r["obligations"].items() if x["result"] != "unsat"]
             print("  unit %-70s %-14s paths=%s vcs=%d %.1fs %s" % (r["label"], r["status"], r.get("paths"),
                                                                   len(r["obligations"]), r.get("wall_s", 0), bad or ""))
+            slow = sorted(((x.get("seconds", 0), o, x.get("solver")) for o, x in r["obligations"].items() if x.get("seconds", 0) >= 5), reverse=True)
+            for sec, o, solver in slow[:5]:
+                print("      slow VC %.1fs %s (%s)" % (sec, o, solver))
     for l in lines:
         print(l)
     return code
